@@ -25,7 +25,8 @@
 (*  wire adversary (between the sender and the reader, budget MaxAdv):     *)
 (*    Flip / Dup / Drop / Swap / Splice / ReplayCp on whole frames, and    *)
 (*    the composite DelayCps (every checkpoint held back until after the   *)
-(*    entry that follows it -- one step, it is one adversary policy)       *)
+(*    entry that follows it -- one step, it is one adversary policy) and   *)
+(*    DropWindow (a whole checkpoint window: its entries + its checkpoint) *)
 (*  receiver (Receiver.receiveLoop, checks in the order they are written): *)
 (*    entry:      tag valid under the session key for (seq, payload)       *)
 (*                else drop; seq <= lastSeq -> drop; else hash += payload, *)
@@ -157,7 +158,7 @@ AdvStep(op, w) ==
     /\ phase' = "adv"
     /\ WriterUnch /\ RecvUnch
 
-AllAdvKinds == {"flip", "dup", "drop", "swap", "splice", "replaycp", "delaycps"}
+AllAdvKinds == {"flip", "dup", "drop", "swap", "splice", "replaycp", "delaycps", "dropwindow"}
 AdvOn(k) == ProduceDone /\ phase \in {"produce", "adv"} /\ advN < MaxAdv /\ Len(wire) > 0 /\ k \in AdvKinds
 
 Flip ==
@@ -218,7 +219,20 @@ DelayCps ==
     /\ DelayAll(wire) # wire
     /\ AdvStep([op |-> "delaycps", i |-> 0, j |-> 0, fld |-> ""], DelayAll(wire))
 
-Adversary == Flip \/ Dup \/ DropF \/ Swap \/ Splice \/ ReplayCp \/ DelayCps
+\* composite: one whole checkpoint window disappears -- every frame after the (k-1)-th checkpoint
+\* frame up to AND INCLUDING the k-th checkpoint frame (its entries plus the checkpoint that signs
+\* them).  What remains is aligned to checkpoint boundaries, so only the chaining of the cumulative
+\* hash across windows (and the last-sequence check) can reveal it.
+CpPositions == SelectSeq([i \in 1..Len(wire) |-> i], LAMBDA i : wire[i].t = "c")
+DropWindow ==
+    /\ AdvOn("dropwindow")
+    /\ \E k \in 1..Len(CpPositions) :
+         LET from == IF k = 1 THEN 1 ELSE CpPositions[k - 1] + 1
+             to   == CpPositions[k] IN
+         AdvStep([op |-> "dropwindow", i |-> k, j |-> 0, fld |-> ""],
+                 SubSeq(wire, 1, from - 1) \o SubSeq(wire, to + 1, Len(wire)))
+
+Adversary == Flip \/ Dup \/ DropF \/ Swap \/ Splice \/ ReplayCp \/ DelayCps \/ DropWindow
 
 StartRecv ==
     /\ ProduceDone /\ phase \in {"produce", "adv"}
